@@ -1013,7 +1013,8 @@ class DtypeV:
         self.fmt = fmt
 
     def code(self):
-        c = "".join(t[1] for t in self.fmt.tokens() if t[0] == "c")
+        # literal characters and constant fields (f"{endian}f{8}"); a symbolic field (the byte order) is skipped
+        c = "".join(t[1] if t[0] == "c" else (t[1].render() or "") for t in self.fmt.tokens())
         c = c.lstrip("<>=|")
         return {"f8": "d", "f4": "f", "i4": "i", "i8": "q", "u4": "I", "u8": "Q"}.get(c)
 
